@@ -25,6 +25,11 @@ CLAIMED = {
   text='Decides, for one identifier: every history of up to 2 (quick) / 3 (thorough) declarations over {object,function} x {file,block scope} x all storage-class/inline/initialiser combinations, plus all file-scope histories up to 3 / 4, yields the diagnostics, emitted definitions (symbol class, export, thread marker), scope bindings and end-of-unit tentative flush that C11 prescribes; plus the mkglobal naming table (asm labels verbatim, unique local names) and the export/thread keywords. Interactions between different identifiers and the emitted bytes of the definitions are NOT decided. Histories where C11 is silent (_Thread_local without initialiser) are left unjudged and counted.',
   note='Trusts clang 14 front end, lib/eai.py, the neighbour models in props/c09.py (declspecs/declarator/consume/scope map/emitters as events) and the reference semantics ref_step (DESIGN A.6). One known finding (inline definition + later external declaration, upstream XXX) is listed in known_findings.json.',
   design='5/C09'),
+ 'C17': dict(
+  technique='abstract interpretation of driver.c (main/buildobj/spawnphase/buildexe) with event models for the process API: decision table over the cproc(1) option grammar plus a symbolic argument (per-character finite-domain splitting) for parser completeness, compared with a reference driver transcribed from the manual',
+  text='Decides: for ~900 command lines generated from the option grammar (every option in attached/detached form, every mode x input type x -o form, -x names, multi-input combinations, ill-formed options) the exact plan - tools spawned, in order, with their complete argv, output naming, skipped inputs, usage errors before anything runs - equals the documented one; a symbolic first argument shows no undocumented option form is honoured; changeext and the arch-name agreement with targ.c. Not exhaustive over all command lines (finite grammar sample + symbolic single argument); what the spawned tools do is out of scope.',
+  note='Trusts clang 14 front end, lib/eai.py, lib/driver.py models (posix_spawn, pipe, wait, array helpers), lib/symstr.py, the reference driver in props/c17.py (DESIGN A.7). config.h is read from /repo (or generated by ./configure into the work dir).',
+  design='5/C17'),
  'C01': dict(
   technique='abstract interpretation (partial evaluation of the lowering functions over the static type/operator descriptor domain) + AST table extraction vs C11/QBE oracle tables',
   text='Decides structural clauses only: the instruction-selection, conversion, load/store, truthiness and bit-field shift tables that every compiled program is lowered through are extracted from the current source by an abstract interpreter and compared exhaustively (over the finite descriptor domain) with oracle tables written from C11 and the QBE manual; sibling switches are checked for exhaustiveness. Semantic equivalence of emitted IL for arbitrary programs is NOT decided.',
